@@ -88,6 +88,11 @@ pub fn check(c: &(M, Vec<u16>), obs: &mut Obs) -> Result<(), String> {
     let text = model_text(m, sels);
     let parsed = ref_parse(&text, Mode::Strict).map_err(|e| format!("[harness-internal] reference rendering does not parse: {e}"))?;
     same(&sj, &parsed, "$").map_err(|e| format!("to_serde_json differs from the strict parse of {:?}: {e}", String::from_utf8_lossy(&text)))?;
+    // ... and from the library's own text rendering
+    let lib_text = nopanic("to_string", || jsonb::to_string(&b))?;
+    let parsed = ref_parse(lib_text.as_bytes(), Mode::Strict)
+        .map_err(|e| format!("the text rendering is not strict JSON ({e}): {:?}", crate::engine::truncate(&lib_text, 300)))?;
+    same(&sj, &parsed, "$").map_err(|e| format!("to_serde_json differs from the strict parse of the text rendering {:?}: {e}", crate::engine::truncate(&lib_text, 300)))?;
     // tree -> serde
     let v = to_value(m);
     let sv: SJ = nopanic("From<Value> for serde_json::Value", || SJ::from(v.clone()))?;
@@ -127,6 +132,6 @@ pub fn check(c: &(M, Vec<u16>), obs: &mut Obs) -> Result<(), String> {
 
 fn run(ctx: &mut Ctx) {
     let cases = ctx.share(ctx.tier.pick(400_000, 4_000_000));
-    let p = ctx.tier.pick(TreeParams::quick(), TreeParams::thorough()).finite().with_big(2);
+    let p = ctx.tier.pick(TreeParams::quick(), TreeParams::thorough()).finite().with_big(3);
     run_strategy(ctx, "C19", "trees", cases, (arb_doc(p), vec(any::<u16>(), 1..5)), check);
 }
